@@ -371,6 +371,10 @@ def run_property(prop, tier='quick', update_baseline=False, only=None, verbose=F
         else:
             undecided.append((type('L', (), {'name': lem['name']})(), 'lemma undecided: ' + str(lem.get('reason'))))
     for b in extras.get('bounded', []):
+        if b.get('error') and not b.get('violations'):
+            # a bounded stand-in that could not run (script died, timed out) is never a pass: undecided
+            undecided.append((type('L', (), {'name': b['name']})(),
+                              'bounded stand-in did not run: ' + str(b['error'])[-300:]))
         if b.get('violations'):
             for v in b['violations'][:3]:
                 info = {'property': prop, 'obligation': b['name'], 'bounded': True, 'input': v}
